@@ -314,6 +314,51 @@ func init() {
 			}
 			return w.lastTimerDur
 		},
+		// vFieldInt(x, name): value of the integer field `name` of the struct (or pointed-to struct) held
+		// in interface x; ok=false when there is no such field.  (Lets a harness read an unexported
+		// field of a value of another package, e.g. the delay of a throttle error.)
+		"vFieldInt": func(w *Worker, fr *frame, fn *ssa.Function, args []value) value {
+			itf, _ := args[0].(iface)
+			name := w.goString(args[1])
+			if itf.t == nil {
+				return tuple{int64(0), false}
+			}
+			t := itf.t
+			v := itf.v
+			if pt, ok := t.Underlying().(*types.Pointer); ok {
+				p, _ := v.(*value)
+				if p == nil {
+					return tuple{int64(0), false}
+				}
+				t, v = pt.Elem(), *p
+			}
+			st, ok := t.Underlying().(*types.Struct)
+			sv, ok2 := v.(structure)
+			if !ok || !ok2 {
+				return tuple{int64(0), false}
+			}
+			for i := 0; i < st.NumFields(); i++ {
+				if st.Field(i).Name() == name {
+					switch f := sv[i].(type) {
+					case *Term:
+						if f.W == 64 {
+							return tuple{f, true}
+						}
+						_, signed, _ := intInfo(st.Field(i).Type())
+						if signed {
+							return tuple{lower(types.Typ[types.Int64], w.tt.SExt(f, 64)), true}
+						}
+						return tuple{lower(types.Typ[types.Int64], w.tt.ZExt(f, 64)), true}
+					default:
+						if _, isInt := bitsOf(f); isInt {
+							return tuple{asInt64(f), true}
+						}
+					}
+					return tuple{int64(0), false}
+				}
+			}
+			return tuple{int64(0), false}
+		},
 		"vTimersCreated": func(w *Worker, fr *frame, fn *ssa.Function, args []value) value {
 			return len(w.sched.timers)
 		},
@@ -1056,6 +1101,11 @@ func init() {
 		return structure{structure{iface{t: types.Typ[types.String], v: canon.String()}}}
 	}
 
+	// proto.Clone is reflection-driven; the messages cloned here (rpc Status) are plain data: structural deep copy
+	S["google.golang.org/protobuf/proto.Clone"] = func(w *Worker, fr *frame, fn *ssa.Function, args []value) value {
+		return deepCopyValue(args[0], map[*value]*value{})
+	}
+
 	// errors
 	S["errors.Is"] = func(w *Worker, fr *frame, fn *ssa.Function, args []value) value {
 		return w.errorsIs(fr, args[0].(iface), args[1].(iface), 0)
@@ -1487,4 +1537,45 @@ func timeFromStruct(t structure) time.Time {
 func timeToStruct(tm time.Time, loc value) value {
 	const unixToInternal = int64((1969*365 + 1969/4 - 1969/100 + 1969/400) * 86400)
 	return structure{uint64(tm.Nanosecond()), tm.Unix() + unixToInternal, loc}
+}
+
+// deepCopyValue copies a value graph (pointers, slices, aggregates, interfaces); maps and channels are shared.
+func deepCopyValue(v value, memo map[*value]*value) value {
+	switch x := v.(type) {
+	case *value:
+		if x == nil {
+			return x
+		}
+		if c, ok := memo[x]; ok {
+			return c
+		}
+		n := new(value)
+		memo[x] = n
+		*n = deepCopyValue(*x, memo)
+		return n
+	case []value:
+		if x == nil {
+			return x
+		}
+		n := make([]value, len(x))
+		for i := range x {
+			n[i] = deepCopyValue(x[i], memo)
+		}
+		return n
+	case structure:
+		n := make(structure, len(x))
+		for i := range x {
+			n[i] = deepCopyValue(x[i], memo)
+		}
+		return n
+	case array:
+		n := make(array, len(x))
+		for i := range x {
+			n[i] = deepCopyValue(x[i], memo)
+		}
+		return n
+	case iface:
+		return iface{t: x.t, v: deepCopyValue(x.v, memo)}
+	}
+	return v
 }
